@@ -253,12 +253,15 @@ def sim_case(rng, out):
             extra.update(src=src, dst=dst)
         sim = Simulator(m)
         sim.add_clock(Period(fs=period * 1000 if period < 100 else period * 1000), domain="sync")
-        if with_proc:
-            async def proc(ctx):
-                async for (v,) in ctx.changed(extra["src"]):
-                    ctx.set(extra["dst"], (v ^ 5) & 15)
-            sim.add_process(proc)
         trace = []
+        if with_proc:
+            # the process also watches an input the testbench drives (and parks in its `finally:` block) and
+            # logs what it sees: its log is part of the observation trace
+            async def proc(ctx):
+                async for vals in ctx.changed(extra["src"], *b.sigs[:min(1, sp.ni)]):
+                    ctx.set(extra["dst"], (vals[0] ^ 5) & 15)
+                    trace.append(["process-saw", list(vals)])
+            sim.add_process(proc)
         watch = [s for s in b.sigs[sp.ni:] if s is not None]
 
         async def tb(ctx):
@@ -391,6 +394,10 @@ def plan_case(rng, out, vendor):
                 slow = Signal(name="slow_clk")
                 m.d.sync += slow.eq(ctr[3])
                 platform.add_clock_constraint(slow, 1e6)
+                # extra files of the design, some several directories deep
+                platform.add_file("notes.txt", "top level\n")
+                platform.add_file("ip/rom/boot.hex", b"00 01 02\n")
+                platform.add_file("ip/rom/tables/sine.mem", "7f\n")
                 k = 0
                 for r in use:
                     port = platform.request(r["name"], r["number"], dir="-")
@@ -471,7 +478,13 @@ def plan_case(rng, out, vendor):
             break
     with tempfile.TemporaryDirectory() as td:
         root = os.path.join(td, "build")
-        got_root = p1.extract(root)
+        try:
+            got_root = p1.extract(root)
+        except Exception as ex:
+            if exc_origin(ex) != "repo" and not isinstance(ex, OSError):
+                raise
+            V("extract-raises:" + type(ex).__name__, exception=repr(ex)[:200], planned=sorted(p1.files)[:12])
+            return
         found = {}
         for dp, dn, fn in os.walk(root):
             for f in fn:
